@@ -215,6 +215,9 @@ type Endpoint struct {
 
 // World is a simulated deployment: network, links, scheduler, sessions.
 type World struct {
+	// NoSilenceCheck switches the O-silence invariant off (scenarios that inject
+	// forged acknowledgements or starve a session on purpose).
+	NoSilenceCheck bool
 	// ListenerClosedMidway: the scenario closed the listener during the run
 	// (emissions of sessions the harness never got from Accept are post-close).
 	ListenerClosedMidway bool
